@@ -41,3 +41,15 @@ example :
       7, [255, 0]⟩
     wf st = true ∧ (query 11235 (Net.init [.opened [.data (encode st)]] [])).1 = .ok (expected st) := by
   decide
+
+/-! ### recorded finding: text that is not UTF-8
+
+The reference reader decodes the strings as Latin-1, so every byte string without NUL is a legal name.  The
+full-strength statement (`wf` without `validUtf8`) is false: the strict UTF-8 decoder rejects such a reply.
+`C07_savage2_decode` is the part that holds; the witness is replayed against the real code on every run. -/
+
+/-- the name `Caf\xE9` (Latin-1): the whole query fails with `PacketBad`. -/
+theorem C07_savage2_finding_latin1 :
+    let st : State := ⟨[0, 0, 0, 0, 0, 0, 0, 0, 0, 0, 0, 0], [67, 97, 102, 0xE9], 3, 32, [49], [109], [110], [69, 85], 2, [99], [50], 1, []⟩
+    (query 11235 (Net.init [.opened [.data (encode st)]] [])).1 = .err .packetBad := by
+  decide
